@@ -15,8 +15,8 @@ CHECKS = {
          "A puppet peer holding the model-TLS keys replaces one side of an honest connection in a chosen state (handshaking with Initial or Handshake keys, established, mid-transfer, locally closed) and sends every single frame of a hostile alphabet (all frame types at boundary values, malformed and unknown encodings), every ordered pair in 1-RTT and 1000-fold repetitions of resource-consuming frames, against client and server victims under five local configurations. Oracle: no panic, bounded activity, bounded heap growth (counting allocator), a bystander connection on the same endpoint completes, and if the victim terminates, the transport error code is in the set RFC 9000 prescribes/permits for that input and equals the code in CONNECTION_CLOSE on the wire; legal inputs must not terminate. Every transport-parameter edit of a list (boundary values, absent, duplicated, wrong lengths, CID-echo and server-only parameters, truncation at every byte) in both directions: never a panic, valid encodings never rejected, failures only with TRANSPORT_PARAMETER_ERROR. Arbitrary short datagrams into Endpoint::handle in both roles. Datagrams with well-formed short and long headers followed by every small body length (exact, one short, with coalesced garbage, padded) are delivered to live connections of both roles and as first packets; the model header-protection key reads its sample like a real one, so a missing length check panics as it would with rustls.",
          "The property allows hostile input to be ignored, so acceptance of an invalid encoding is counted but not flagged; heap bound is a fixed threshold.",
          "DESIGN.md#c03"),
- "C04": ("E3", "fault_enumeration",
-         "exhaustive duplication / mutation / probe enumeration on real endpoints with wire-level ledger and differential oracle",
+ "C04": ("E3+E1", "fault_enumeration",
+         "exhaustive duplication / mutation / probe enumeration on real endpoints with wire-level ledger and differential oracle; explicit-state search of the replay window (Dedup) against a set model",
          "Every emitted datagram of each baseline is re-delivered after each delay of a list (pairs in thorough) incl. forced key updates: per frame type the receiver must not process more frames than the sender put on the wire (harness decoder). Every (datagram x mutation) corrupted copy is injected and the run must be application-equivalent to the uninjected run (wire-identical after the handshake). Stateless-reset probes (exact / every bit flipped / other CID / other address / too short), Version Negotiation and forged Retry packets are injected at every step index against both roles. Mutations: every bit of the first byte, bit flips in the leading 24 (thorough 32, all bits) and trailing 16 bytes, truncations around each header boundary, extensions.",
          "Model TLS: keyed 128-bit tag stands in for the AEAD; cross-connection splices are decided under C09.",
          "DESIGN.md#c04"),
@@ -40,13 +40,13 @@ CHECKS = {
          "For every step index of each baseline run and each of {client close, server close, both, client black-holed, server black-holed}, combined with every drop mask over the first datagrams after the close and duplication of the close packet, the termination oracles are evaluated: ConnectionLost at most once and never for the local closer, the peer's code and reason over a lossless path, drained within 3 PTO (probe value at close), exactly one Drained endpoint event, endpoint forgets the connection and stale datagrams do not route, idle timeout bounds, keep-alive prevents timeout, and CONNECTION_CLOSE is emitted in the same settle step as close() whatever the congestion / pacing / flow-control state. An exact stateless reset reaches the closing side 1 ms / 40 ms after its close (a peer that lost its state), and drained connections are kept and their timers serviced so that anything they still emit (a second Drained, packets, events) is seen.",
          "3*PTO read through the probe hook at close time; server with unvalidated peer and exhausted amplification budget exempt from the prompt-close oracle.",
          "DESIGN.md#c08"),
- "C19": ("E5", "exploration",
-         "bounded exhaustive enumeration of transmit shapes over real loopback sockets",
+ "C19": ("E5+E4", "exploration",
+         "bounded exhaustive enumeration of transmit shapes over real loopback sockets; deviation-bounded schedule exploration of the quinn endpoint's receive path over a coalescing in-memory socket under a deterministic executor",
          "Every payload length, GSO segment size x count x last-segment shape, ECN codepoint, explicit source address, receive-buffer shape and GRO on/off, on four socket-pair families, is sent through quinn-udp and fully received before the next; the oracle is the Transmit itself (segments byte-identical, in order, stride splits batches, ecn/addr/dst_ip conveyed). Offload-failure fallback is triggered from user space and the following plain transmits are checked.",
          "Kernel behaviour is not owned: a silent receive is retried and then recorded as inconclusive, only a received-but-wrong result is a violation; memory safety of the unsafe cmsg code as such is outside this family.",
          "DESIGN.md#c19"),
- "C09": ("E2", "fault_enumeration",
-         "deviation-bounded stateless exploration of one real server endpoint with several concurrent client connections and a per-Endpoint::handle routing oracle",
+ "C09": ("E2+E1", "fault_enumeration",
+         "deviation-bounded stateless exploration of one real server endpoint with several concurrent client connections and a per-Endpoint::handle routing oracle; explicit-state search of the CidQueue ring to closure against a map model",
          "Three (later four) client connections from two or three client endpoints run different-length transfers against one server endpoint; every execution with <=2 fate deviations in the scenario window is enumerated for CID lengths 0/1/4/8/20, CID rotation every 200 ms, local_address_changed at several points, connections closed at each listed step with a new connection reusing the freed handle, and stale datagrams delayed past handle reuse. For every Endpoint::handle call the connection the datagram is handed to (identified by a never-reused serial) must be the peer of the connection that produced it; connections nobody closed must complete and the server side must obtain exactly that connection's bytes. One-byte CIDs: exhaustion is reported as CidsExhausted, and 80 short connections beside a long-lived pinging one (CID space wraps) cause no misrouting. After every run, one datagram per (drained connection, connection ID it ever had) is presented again and must not be handed to any existing connection; scenarios combine CID rotation, close, drain and handle reuse.",
          "Counter-based CID generator supplied through the API (the built-in generators draw from the OS RNG); zero-length CIDs use one connection per client endpoint.",
          "DESIGN.md#c09"),
@@ -110,17 +110,21 @@ CHECKS = {
 # sentences appended to the level text of checks that were extended after the first write-up
 EXTRA = {
  "C01": "Workloads W11/W12 add stop, reset-on-stopped, late finishes and four streams recycling pooled stream state; ClosedStream or silent discard on a stream nobody ended is a violation.",
- "C02": "A busy-polling driver (extra transmit polls every 50/100/1000 us of virtual time) must make the same progress for rate-limited and window-limited senders.",
- "C04": "Retry probes include a second Retry whose tag verifies against the CID in use after the first, and a Retry right behind the server's first datagram cut down to its Initial packet; early datagrams damaged in transit (original lost, mutated copy arrives) must be recovered from.",
+ "C15": "Also a full address change to a path with 60 / 250 ms more one-way delay: a genuine slower path that keeps answering must not be given up.",
+ "C18": "Scenario S6: the only permitted stream is stopped by the peer and its handle dropped while the connection is completely idle; the next open_uni must still complete.",
+ "C19": "The quinn endpoint's share (RecvState::poll_socket splitting coalesced receive batches by stride) is explored under the deterministic executor of harness-async over an in-memory socket that coalesces like a GRO-capable kernel, every schedule with <=1 (2) deviations; no packet may be declared lost on a lossless FIFO network.",
+ "C02": "One-sided drop masks (every subset of ten consecutive datagrams of one side) and mid-transfer windows for flow-control-limited configurations, so that credit frames and their retransmissions are lost together. A busy-polling driver (extra transmit polls every 50/100/1000 us of virtual time) must make the same progress for rate-limited and window-limited senders.",
+ "C03": "Reassembly memory is read through the probe hook after every case (allocated <= 3 x distinct outstanding bytes + 64 KiB per buffer); thorough adds ordered triples.",
+ "C04": "The replay window (Dedup) is searched through every insert history over two packet-number alphabets against the set of numbers seen (E1). Retry probes include a second Retry whose tag verifies against the CID in use after the first, and a Retry right behind the server's first datagram cut down to its Initial packet; early datagrams damaged in transit (original lost, mutated copy arrives) must be recovered from.",
  "C05": "Also 0-RTT cases (rejected with lower limits, accepted with higher ones) and asymmetric initial_max_stream_data_* values installed through a transport-parameter override; the ledger reads the parameters actually sent.",
- "C06": "Window operations include shrink, partial and full regrow; advertised credit is bounded by consumed + the largest window in effect since the debt was incurred; unread datagram bytes never exceed the configured buffer.",
+ "C06": "Macro operation: the peer keeps sending on a stream the application stopped. Window operations include shrink, partial and full regrow; advertised credit is bounded by consumed + the largest window in effect since the debt was incurred; unread datagram bytes never exceed the configured buffer.",
  "C07": "Spoofed rebinding: while the server is the bulk sender a copy of a client datagram arrives from the same IP / another port at every step of a window; bytes sent to the unvalidated address stay below 3x what was received from it. Coalesced undecryptable packets are counted once.",
  "C08": "Also an exact stateless reset reaching the closing side after its close, a doubly migrated client, and late senders (the peer vanishes, the application keeps writing): the sender's own idle timeout must fire within the negotiated period after the last packet received.",
- "C09": "At the end of every execution one datagram per (drained connection, CID it had) is presented again and must not reach a connection, and the server's stateless reset for the CID in use is sent to every surviving client connection in turn and must end exactly that one.",
- "C13": "Workload W13 queues more near-maximum datagrams than a congestion window; at the end nothing may sit in the datagram send queue with nothing in flight. path_changed() configurations; estimate and every 1-RTT datagram stay within the peer's max_udp_payload_size.",
+ "C09": "E1: the ring of peer-issued connection IDs (CidQueue) through every NEW_CONNECTION_ID / switch history until the canonical state space closes, against a map model. At the end of every execution one datagram per (drained connection, CID it had) is presented again and must not reach a connection, and the server's stateless reset for the CID in use is sent to every surviving client connection in turn and must end exactly that one.",
+ "C13": "A client address change at every step of a window runs path validation while datagrams are queued. Workload W13 queues more near-maximum datagrams than a congestion window; at the end nothing may sit in the datagram send queue with nothing in flight. path_changed() configurations; estimate and every 1-RTT datagram stay within the peer's max_udp_payload_size.",
  "C14": "Client-side Retry probes at every step index (verifying tag, second Retry verifying against the CID in use, Retry behind a lone server Initial, every tag bit flipped): followed at most once and never after a server packet was accepted. Bloom-log lifetimes 10 s / 1.5 s / 0.7 s.",
- "C16": "Queue sequences also start in 0-RTT (accepted / rejected, also window-limited so that early datagrams are still queued when the answer arrives); an empty send queue must account for zero bytes.",
- "C20": "Script-free histories (incl. senders capped at 2 / 20 kB/s) are re-driven by a busy-polling loop (extra transmit polls every 20/50/100/1000 us) and must give the same events and loss counters; zero-latency histories (nanosecond RTT) and silent-peer histories under CID rotation bound timer re-arming.",
+ "C16": "The path shrinks while 44 near-maximum datagrams are queued: nothing may stay queued. Queue sequences also start in 0-RTT (accepted / rejected, also window-limited so that early datagrams are still queued when the answer arrives); an empty send queue must account for zero bytes.",
+ "C20": "The drained part also drains the closing side early by its peer's stateless reset. Script-free histories (incl. senders capped at 2 / 20 kB/s) are re-driven by a busy-polling loop (extra transmit polls every 20/50/100/1000 us) and must give the same events and loss counters; zero-latency histories (nanosecond RTT) and silent-peer histories under CID rotation bound timer re-arming.",
 }
 for _k, _v in EXTRA.items():
     _c = CHECKS[_k]
